@@ -4135,3 +4135,27 @@ mod tests {
     Ok(())
   }
 }
+
+/// Verification hooks (second batch): forwarders to the repeating-member occurrence
+/// kernels. Compiled only with `--cfg anweiss_cddl_verif`.
+#[cfg(anweiss_cddl_verif)]
+#[doc(hidden)]
+#[allow(missing_docs)]
+pub mod verif_hooks_occ {
+  use super::JSONValidator;
+  use crate::ast::ValueMemberKeyEntry;
+
+  pub fn validate_repeating_member_count<'a>(
+    v: &mut JSONValidator<'a>,
+    entry: &ValueMemberKeyEntry<'a>,
+    count: usize,
+  ) {
+    v.validate_repeating_member_count(entry, count)
+  }
+  pub fn repeating_member_upper_bound<'a>(entry: &ValueMemberKeyEntry<'a>) -> Option<usize> {
+    JSONValidator::repeating_member_upper_bound(entry)
+  }
+  pub fn error_count(v: &JSONValidator<'_>) -> usize {
+    v.errors.len()
+  }
+}
